@@ -301,3 +301,155 @@ func c01Small(c *vrep.Ctx) {
 		}
 	})
 }
+
+// c01Composites: user corpora in which a third document is built from pieces of the two planted
+// ones (A + a prefix of B, a suffix of A + B, A + B, B + A ...): such a document matches the
+// region around the copies with a lower confidence but more tokens and competes with the exact
+// copies in the overlap filter.
+func init() { vRegister("c01_composites", c01Composites) }
+
+func c01Composites(c *vrep.Ctx) {
+	t, _ := strconv.ParseFloat(c.Param("t", "0.8"), 64)
+	word := func(p string, i int) string { return p + string(rune('a'+i/5)) + string(rune('k'+i%5)) + "o" }
+	mk := func(p string, n int) []string {
+		var w []string
+		for i := 0; i < n; i++ {
+			w = append(w, word(p, i))
+		}
+		return w
+	}
+	lens := []int{10, 16}
+	type comp struct {
+		name string
+		mk   func(a, b []string) []string
+	}
+	cat := func(x ...[]string) []string {
+		var o []string
+		for _, s := range x {
+			o = append(o, s...)
+		}
+		return o
+	}
+	comps := []comp{
+		{"none", nil},
+		{"A+first third of B", func(a, b []string) []string { return cat(a, b[:len(b)/3]) }},
+		{"A+first half of B", func(a, b []string) []string { return cat(a, b[:len(b)/2]) }},
+		{"A+most of B", func(a, b []string) []string { return cat(a, b[:len(b)-2]) }},
+		{"second half of A+B", func(a, b []string) []string { return cat(a[len(a)/2:], b) }},
+		{"last words of A+B", func(a, b []string) []string { return cat(a[len(a)-3:], b) }},
+		{"A+foreign words+first half of B", func(a, b []string) []string { return cat(a, mk("w", 2), b[:len(b)/2]) }},
+		{"first half of B+A", func(a, b []string) []string { return cat(b[:len(b)/2], a) }},
+	}
+	c.R.Rule = fmt.Sprintf("user corpora {A, B, composite}: A, B of %v distinct words, composite drawn from %d documents built from pieces of A and B (A + a third / half / most of B, a suffix of A + B, with foreign words in between, B-part before A); input = OOV line, A laid out on 1-2 lines, an OOV gap of 1/2/4 words on A's last line, on its own line, or joining A's last and B's first line into one, B on 1-3 lines, OOV line; both copies must be reported with Confidence 1.0 and exact spans and lines; thresholds by parameter; non-trivial = distinct (lengths, composite, layout) cases", lens, len(comps)-1)
+	c.Bound("threshold", t)
+	body := func(r *vx.Run) {
+		na := lens[r.Choose(len(lens), "len A")]
+		nb := lens[r.Choose(len(lens), "len B")]
+		ci := r.Choose(len(comps), "composite")
+		la := 1 + r.Choose(2, "lines of A")
+		lb := 1 + r.Choose(3, "lines of B")
+		gap := []int{1, 2, 4}[r.Choose(3, "gap words")]
+		gapMode := r.Choose(3, "gap placement") // 0 on A's last line, 1 on its own line, 2 A, gap and B's first line on ONE line
+		gapOwn := gapMode == 1
+		a, b := mk("a", na), mk("b", nb)
+		cl := NewClassifier(t)
+		cl.AddContent("License", "DocA", "license.txt", []byte(strings.Join(a, " ")))
+		cl.AddContent("License", "DocB", "license.txt", []byte(strings.Join(b, " ")))
+		if comps[ci].mk != nil {
+			cl.AddContent("License", "DocC", "license.txt", []byte(strings.Join(comps[ci].mk(a, b), " ")))
+		}
+		lay := func(w []string, lines int) string {
+			var out []string
+			per := (len(w) + lines - 1) / lines
+			for i := 0; i < len(w); i += per {
+				e := i + per
+				if e > len(w) {
+					e = len(w)
+				}
+				out = append(out, strings.Join(w[i:e], " "))
+			}
+			return strings.Join(out, "\n")
+		}
+		var gw []string
+		for i := 0; i < gap; i++ {
+			gw = append(gw, vOOV(30+i))
+		}
+		var sb strings.Builder
+		sb.WriteString(vOOV(1) + " " + vOOV(2) + "\n")
+		startA := 2
+		sb.WriteString(lay(a, la))
+		if gapOwn {
+			sb.WriteString("\n" + strings.Join(gw, " ") + "\n")
+		} else if gapMode == 2 {
+			sb.WriteString(" " + strings.Join(gw, " ") + " ")
+		} else {
+			sb.WriteString(" " + strings.Join(gw, " ") + "\n")
+		}
+		startB := startA + na + gap
+		sb.WriteString(lay(b, lb))
+		sb.WriteString("\n" + vOOV(5) + " " + vOOV(6) + "\n")
+		in := []byte(sb.String())
+		toks := vTokenize(in)
+		res := cl.Match(in)
+		var msgs []string
+		if na >= cl.q {
+			if m := c01Expect(res, toks, "DocA", "License", startA, na); m != "" {
+				msgs = append(msgs, "DocA: "+m)
+			}
+		}
+		if nb >= cl.q {
+			if m := c01Expect(res, toks, "DocB", "License", startB, nb); m != "" {
+				msgs = append(msgs, "DocB: "+m)
+			}
+		}
+		// mechanism of the recorded finding (overlap filter of match(): line based, prefers the match
+		// with more tokens x confidence): a copy is missing altogether, and the result retains a match
+		// of ANOTHER document that weighs more and whose line range contains the copy's line range or
+		// is contained in it (a composite document covering the copy; a longer document's copy on the
+		// same line)
+		class := ""
+		if len(msgs) > 0 {
+			class = "copy-loses-line-containment-to-heavier-match"
+			for _, x := range []struct {
+				name     string
+				start, n int
+			}{{"DocA", startA, na}, {"DocB", startB, nb}} {
+				if x.n < cl.q || c01Expect(res, toks, x.name, "License", x.start, x.n) == "" {
+					continue
+				}
+				xs, xe := toks[x.start].Line, toks[x.start+x.n-1].Line
+				explained := false
+				for _, m := range res.Matches {
+					if m.Name == x.name {
+						explained = false // the copy's own document is reported, but wrongly: not this mechanism
+						class = ""
+						break
+					}
+					w := float64(m.EndTokenIndex-m.StartTokenIndex) * m.Confidence
+					nested := (m.StartLine <= xs && m.EndLine >= xe) || (xs <= m.StartLine && xe >= m.EndLine)
+					if m.MatchType != "Copyright" && nested && w > float64(x.n-1) {
+						explained = true
+					}
+				}
+				if !explained {
+					class = ""
+				}
+			}
+		}
+		r.Note = map[string]interface{}{"id": fmt.Sprintf("|A|=%d |B|=%d composite=%q A on %d lines, gap %d words (placement %d), B on %d lines", na, nb, comps[ci].name, la, gap, gapMode, lb), "msg": strings.Join(msgs, " ;; "), "comp": comps[ci].name, "class": class}
+	}
+	c.Run(c.Explorer(0), body, func(r *vx.Run) {
+		id := r.Note["id"].(string)
+		c.Nontrivial(id)
+		c.Sample(id)
+		if m := r.Note["msg"].(string); m != "" {
+			key := fmt.Sprintf("c01_composites:T%v:%s", t, strings.ReplaceAll(id, " ", "_"))
+			if cls := r.Note["class"].(string); cls != "" {
+				key = "c01:class:" + cls
+			}
+			c.Violate(key, fmt.Sprintf("T=%v %s: %s", t, id, m), r, m)
+		} else {
+			c.Outcome("found")
+		}
+	})
+}
